@@ -103,12 +103,18 @@ def c13(tier, seed):
     ]
     inv = ["ValueFailsLoudly", "RebalanceNeedsQuotes"]
     props = ["RebalanceAtomic"]
-    depth = 4 if tier == "quick" else 5
+    depth = 5 if tier == "quick" else 6
     ms = [
         model("faults", ["S5", "F5"], ["quote", "half", "disc", "trade", "value", "lots"], depth, fees="paid",
               bids=(8,), spreads=(2,), dqs=(-1, 1), lots=[{"S5": 1, "F5": -1}, {"F5": 1}, {}],
               invariants=inv, properties=props),
     ]
+    # every *path* of three operations (no VIEW: the history is part of the state).  The models above replay one history per
+    # (account state, last operation); an implementation may tell apart two histories that the specification identifies
+    # (e.g. a discontinuation that precedes the first quote and one that follows it)
+    ms.append(model("faults-paths", ["S5", "F5"], ["quote", "half", "disc", "trade", "value", "lots"], 3, fees="paid",
+                    bids=(8,), spreads=(2,), dqs=(-1, 1), lots=[{"S5": 1, "F5": -1}, {"F5": 1}, {}],
+                    invariants=inv, properties=props, all_paths=True))
     # a request previewed while quotes were there and executed after one of them was lost
     ms.append(model("faults-preview", ["S1", "F4"], ["quote", "half", "disc", "prepare"], 5, fees="free", bids=(8,), spreads=(0,),
                     reqs=[req({"S1": F(1, 2), "F4": F(1, 2)}), req({"S1": F(1), "F4": F(-2)}, measure="lots")], maxrebal=1,
@@ -120,6 +126,8 @@ def c13(tier, seed):
                         invariants=inv, properties=props))
     for m in ms:
         explore_and_replay(rep, m, clauses_of("C13"))
+    # longer random behaviours of the fault model (path diversity beyond the depth bound)
+    simulate(rep, ms[0], clauses_of("C13"), 1500 if tier == "quick" else 20000, 9 if tier == "quick" else 14, seed)
     return rep.finish()
 
 
